@@ -414,6 +414,32 @@ fn check_pair_vars<G: GraphLike>(dg: &Diag, dh: &Diag, pg: &IdPlan, ph: &IdPlan,
             Err(e) => return Err(format!("{what}: adjoint malformed: {e:?}")),
         }
     }
+    // conditioned scalar factors (what a simplifier leaves behind, C10) under the same operations
+    {
+        use super::c10::inst_truth;
+        let mut gs = g.clone();
+        guarded(&format!("{name}: clifford_simp"), || quizx::simplify::clifford_simp(&mut gs))?;
+        if gs.scalar_factors().next().is_some() {
+            obs.class("with-scalar-factors");
+            let adj = guarded(&format!("{name}: to_adjoint (diagram with conditioned scalar factors)"), || gs.to_adjoint())?;
+            let mut plugged = gs.clone();
+            guarded(&format!("{name}: plug (diagram with conditioned scalar factors)"), || plugged.plug(&h))?;
+            for sigma in 0..16u32 {
+                let (Some(Truth::Exact(t)), Some(Truth::Exact(ta)), Some(Truth::Exact(th)), Some(Truth::Exact(tp))) =
+                    (inst_truth(&gs, sigma)?, inst_truth(&adj, sigma)?, inst_truth(&h, sigma)?, inst_truth(&plugged, sigma)?)
+                else {
+                    obs.skip("oracle");
+                    continue;
+                };
+                Zw::same(&dagger(&t), &ta).map_err(|e| {
+                    format!("{name}: variables b0..b3={sigma:04b}: adjoint of a diagram with conditioned scalar factors, then substitution, differs from substitution then conjugate transpose: {e}")
+                })?;
+                Zw::same(&compose(&t, &th), &tp).map_err(|e| {
+                    format!("{name}: variables b0..b3={sigma:04b}: plug of a diagram with conditioned scalar factors, then substitution, differs from substitution then composition: {e}")
+                })?;
+            }
+        }
+    }
     obs.class("with-variables");
     Ok(())
 }
